@@ -137,6 +137,7 @@ def obligations(tier: str):
         for wr in (True, False):
             add("tournament", f"tournament_pop2_t{t}_{'repl' if wr else 'norepl'}", M=2, t=t, wr=wr, table=3 if t < 3 else 2, timeout=200)
     add("tournament", "tournament_pop2_t2_scored_under_another_problem", M=2, t=2, wr=True, table=2, other_problem=True, K=1 if not T else None, timeout=200)
+    add("tournament", "tournament_pop2_t2_infinite_fitness", M=2, t=2, wr=True, table="inf", timeout=200)
     add("tournament", "tournament_iterator_pop2_t2", M=2, t=2, wr=False, table=2, form="iterator")
     if T:
         for t in (1, 2, 4):
